@@ -2636,7 +2636,18 @@ func (p *printer) printExpr(expr js_ast.Expr, level js_ast.L, flags printExprFla
 			}
 			flags &= ^(isNewTarget | hasNonOptionalChainParent)
 		}
+		// An expression statement cannot start with "let [" because that's a lexical
+		// declaration: "(let)[x] = 1" must not be printed as "let[x] = 1"
+		wrapLet := false
+		if id, ok := e.Target.Data.(*js_ast.EIdentifier); ok && p.stmtStart == len(p.js) &&
+			e.OptionalChain != js_ast.OptionalChainStart && p.renamer.NameForSymbol(id.Ref) == "let" {
+			wrapLet = true
+			p.print("(")
+		}
 		p.printExpr(e.Target, js_ast.LPostfix, (flags&(isNewTarget|hasNonOptionalChainParent))|isPropertyAccessTarget)
+		if wrapLet {
+			p.print(")")
+		}
 		if e.OptionalChain == js_ast.OptionalChainStart {
 			p.print("?.")
 		}
